@@ -32,6 +32,9 @@ def variants(rng, da, aux):
     for k in ks:
         out.append((f"roll{k}", da.roll(dir=k, roll_coords=True)))
     out.append(("reversed", da.isel(dir=slice(None, None, -1))))
+    # descending storage that starts somewhere else on the circle (orientation and rotation together)
+    kk = rng.randint(1, nd - 1)
+    out.append((f"reversed_roll{kk}", da.isel(dir=slice(None, None, -1)).roll(dir=kk, roll_coords=True)))
     shuf = list(range(nd))
     rng.shuffle(shuf)
     out.append(("dirshuffled->sortby", da.isel(dir=shuf).sortby("dir")))
@@ -140,7 +143,7 @@ def make_case(args):
             out.append(dict(op=op, variant="base", crash=f"{type(e).__name__}: {str(e)[:200]}", icase=icase))
             continue
         for tag, v in vs:
-            if tag == "reversed" and op in NO_REVERSE:
+            if tag.startswith("reversed") and op in NO_REVERSE:
                 continue
             rec = dict(op=op, variant=tag, icase=icase, dims=list(da.dims), nd=nd, nf=nf)
             f32 = tag == "float32"
@@ -150,7 +153,7 @@ def make_case(args):
                 if f32 and op in opcat.WATERSHED:
                     rel = 1e-5
                 rec["diff"] = opcat.compare(got, ref, rel=rel, abs_=atol, coord_rel=1e-6 if f32 else 1e-12)
-                if rec["diff"] and op in opcat.WATERSHED and (tag.startswith("roll") or tag == "reversed") and basin_tie(da, op == "ptm1_smooth"):
+                if rec["diff"] and op in opcat.WATERSHED and (tag.startswith("roll") or tag.startswith("reversed")) and basin_tie(da, op == "ptm1_smooth"):
                     rec["ambiguous"] = "two basins of equal Hs: their rank (and which one is kept) depends on the scan order"
             except Exception as e:
                 rec["crash"] = f"{type(e).__name__}: {str(e)[:200]}"
